@@ -21,11 +21,18 @@ pan tie    : harness/c14_pan.c includes src/player.c privately with the single c
              process_pan) redirected to a spy: pan sources read from the channel (pan.val, panbrello via macro.notepan, pan
              envelope via the real get_envelope, rpv, player mode, format, surround, s->mix) -> pan handed to the mixer and
              info_finalpan, compared with Xmp.MixLinear.processPan (command pp); the run must have exercised every source.
+virt tie   : libxmp_virt_setpatch is reached through -Wl,--wrap: when a call moves a voice to a background (NNA) channel the
+             channel chosen is compared with Xmp.MixKernel.bgSearch over the map before the call (command bg); in every tick
+             every voice in use must be the one its virtual channel maps to (no orphans, signature virt:orphan_voice).
+             Runs use small XMP_PLAYER_VOICES (random per module; 7 / 8 on gen_c14_synth.nna_modules: many background
+             voices on few busy channels, more than maxvoc - num_tracks while the voice table is not full).
 reset tie  : the member list of struct mixer_voice is generated from the preprocessed src/mixer.h (Lean list +
              harness/c14_voice_members.h X-macro); in every tick of the tie runs every free voice is compared member by
              member with the other free voices and, sampled (not-plainly-zero images first), with Xmp.MixKernel.resetValue
              (command vr) - libxmp_virt_resetvoice / _resetchannel / virt_reset are the only writers of a free slot.
-search     : IT modules (gen_c14_synth.reuse_modules) in which a background voice is freed (sample end, fade to silence,
+search     : generated Oktalyzer modules with 0..4 split channel pairs and one corpus module of every format class (by name) are
+             in every silence / twin run; solo-sum on the many-NNA modules at XMP_PLAYER_VOICES 7, 8, 10.
+             IT modules (gen_c14_synth.reuse_modules) in which a background voice is freed (sample end, fade to silence,
              duplicate check, cut) and its slot is taken by a filtered note of another channel (resonant IFC/IFR, ramp /
              anticlick residue, ping-pong/reverse flags), under the solo-sum oracle at several rates / interpolators and
              with a mid-render xmp_set_position (libxmp_virt_reset: slots re-taken in a new order); reuse is measured.
@@ -79,6 +86,10 @@ MANIFEST = dict(
          "the anticlick ramp by the voice volume; C14_kernel_no_wrap(_voices): the accumulator holds the true integer sum while voices x "
          "sampleBound x level < 2^31 (instances: 128 voices up to level 255 with filter, 63 voices at nominal full scale 1024, 31 at master "
          "200 %), C14_kernel_wrap_possible: beyond that it wraps and only the mod-2^32 statement holds; C14_kernel_mirror/_center: exchanging "
+         "C14_bg_channel_free: the background channel libxmp_virt_setpatch picks for a displaced voice is free whenever fewer background "
+         "channels are occupied than exist (always: their number is the number of voices), so no sounding voice is orphaned; "
+         "C14_silence_master_split / C14_split_pair_volume: the partner of an Amiga split channel pair (Oktalyzer) gets the volume after "
+         "the master-volume scaling. "
          "C14_voice_reset_clears: a freed voice (model of libxmp_virt_resetvoice/_resetchannel/virt_reset over the member list generated "
          "from mixer.h) is zero in every member the kernels and the voice loop read; C14_voice_reuse_independent/_same: the contributions "
          "after a reset are those of a fresh slot, whatever the previous owner did - a voice's contribution depends only on its own "
@@ -118,7 +129,7 @@ REQUIRED = ["Xmp.MixLinear." + n for n in (
     "C14_superposition", "C14_superposition_mix", "C14_superposition_perm", "C14_superposition_append",
     "C14_solo_independent", "C14_superposition_pointwise", "C14_quantisation_int", "C14_quantisation",
     "C14_silence_buffer", "C14_silence_output", "C14_silence_voice", "C14_silence_run", "C14_silence_contrib",
-    "C14_silence_mute", "C14_silence_master_partial", "C14_silence_master_full", "C14_silence_master_counterexample",
+    "C14_silence_mute", "C14_silence_master_partial", "C14_silence_master_split", "C14_split_pair_volume", "C14_silence_master_full", "C14_silence_master_counterexample",
     "C14_silence_master_status",
     "C14_separation_zero", "C14_separation_mirror_pan", "C14_separation_mirror_vol", "C14_separation_mirror",
     "C14_separation_mirror_tick", "C14_separation_zero_tick",
@@ -128,7 +139,7 @@ REQUIRED = ["Xmp.MixLinear." + n for n in (
     "C14_kernel_frac_range", "C14_kernel_fits", "C14_kernel_no_wrap", "C14_kernel_no_wrap_voices", "C14_kernel_levels",
     "C14_anticlick_bound", "C14_kernel_no_wrap_instances",
     "C14_kernel_wrap_possible", "C14_kernel_mirror", "C14_kernel_mirror_stereo", "C14_kernel_center",
-    "C14_voice_reset_clears", "C14_voice_reuse_independent", "C14_voice_reuse_same", "C14_kernel_refines", "contrib_eq_kernel",
+    "C14_voice_reset_clears", "C14_voice_reuse_independent", "C14_voice_reuse_same", "C14_bg_channel_free", "bgLoop_spec", "C14_kernel_refines", "contrib_eq_kernel",
     # helper facts the property-level statements cite (XmpProofs/MixKernel.lean)
     "shapes_recognised", "splineRow_abs", "splineRows_unit_gain", "lerp_product_fits", "spline_acc_fits", "preamp_fits",
     "filter_sum_fits", "filt_bound", "fetch_bound", "loopBuf_eq", "mixCalls_eq_tick",
@@ -144,12 +155,38 @@ def build_main_harness(variant="asan"):
         hh = vlib.hash_str(open(gen_mixlinear.VHEADER).read())
     except OSError:
         hh = "none"
-    return vlib.build_harness(*HARNESS, variant=variant, defines=["C14_VOICE_MEMBERS_HASH=%s" % hh])
+    return vlib.build_harness(*HARNESS, variant=variant, defines=["C14_VOICE_MEMBERS_HASH=%s" % hh],
+                              extra=["-Wl,--wrap=libxmp_virt_setpatch"])
 KHARNESS = ("c14_kernel", ["c14_kernel.c"])
 PHARNESS = ("c14_pan", ["c14_pan.c"])
 NNA_WITNESSES = ["it_note_delay_nna.it"]      # F6 witness of DESIGN.md section 5, always in the silence set
 A500_SOLOSUM_WITNESSES = ["Mexx-BitBlaster-1.TrackerPacker2"]   # Paula state survives voice-slot reuse (found by this check)
 PAULA_WITNESSES = ["NP2.Multica"]             # Paula kernel read past the sample end at 4000 Hz (found by this check)
+
+
+def format_tag(path):
+    """coarse format class of a corpus file from its name: extension (`x.okt`) or Amiga-style prefix (`OKT.x`)"""
+    parts = os.path.basename(path).lower().split(".")
+    if len(parts) < 2:
+        return "?"
+    ext, pre = parts[-1], parts[0]
+    if len(ext) <= 4 and ext.isalnum() and not ext.isdigit():
+        return ext
+    return pre if len(pre) <= 6 and pre.isalnum() else "?"
+
+
+def stratified(ck, maxsize):
+    """one (the smallest) corpus module of every format class: formats with special channel structure (split pairs,
+    paired channels, effects-mixer quirks) are in every run, whatever the random draw"""
+    best = {}
+    for f in vlib.corpus_files():
+        sz = os.path.getsize(f)
+        t = format_tag(f)
+        if sz > maxsize or sz < 1500 or t == "?":
+            continue
+        if t not in best or sz < best[t][0]:
+            best[t] = (sz, f)
+    return sorted(f for (_, f) in best.values())
 
 
 def modules(ck, n, maxsize):
@@ -236,9 +273,10 @@ def model_compare(ck, what, out, stats):
             if stats["model_mismatch_" + kind] > 3:      # the first three per kind are reported, the rest counted
                 continue
             first = next((i for i, (a, b) in enumerate(zip(ef, gf)) if a != "*" and a != b), -1)
-            ck.unproved("correspondence %s%s vs the C (%s)" % ("Xmp." if kind in ("k2", "pk", "vr") else "Xmp.MixLinear.", 
+            ck.unproved("correspondence %s%s vs the C (%s)" % ("Xmp." if kind in ("k2", "pk", "vr", "bg") else "Xmp.MixLinear.", 
                 {"sum": "tick", "vol": "volLR/level/rampDelta", "kern": "kernel", "dmx": "outSample", "vt": "voiceTick",
                  "mst": "voiceVol", "pan": "voicePan", "pp": "processPan/infoFinalPan (process_pan)",
+                 "bg": "MixKernel.bgSearch (background channel chosen by libxmp_virt_setpatch)",
                  "vr": "MixKernel.resetValue (members of a free voice after libxmp_virt_resetvoice/_resetchannel/virt_reset)", "k2": "MixKernel.run (bit-exact kernel)", "pk": "MixKernel.Paula.prun (bit-exact Paula kernel)"}.get(kind, kind), what),
                 "case: %s\nreal : %s\nmodel: %s\nfirst differing field: %d" % (c[:600], e[:400], g[:400], first))
 
@@ -321,6 +359,10 @@ def run(ck):
                         bump("voice_" + k, int(d.get(k, 0)))
                         if prefix == "reuse_tie":
                             bump("reuse_modules_" + k, int(d.get(k, 0)))
+                    for k in ("mapped_checked", "bg_voices", "bg_beyond", "bg"):
+                        bump("virt_" + k, int(d.get(k, 0)))
+                        if prefix == "nna_tie":
+                            bump("nna_modules_" + k, int(d.get(k, 0)))
                     for k in ("maxvol", "maxlevel", "maxactive"):
                         stats["observed_" + k] = max(stats.get("observed_" + k, 0), int(d.get(k, 0)))
                     bump("observed_accumulator_wraps", int(d.get("wraps", 0)))
@@ -346,7 +388,8 @@ def run(ck):
                         continue
                     # the accumulator identity *is* the property at the level of one tick
                     ck.violation(sig + ":" + mod, replay_obj(mode, seed, nfr, path, line, env),
-                                 "the mix of a tick is not the sum of its voices' solo mixes: " + line[:300])
+                                 ("the mix of a tick is not the sum of its voices' solo mixes: " if sig.startswith("superposition")
+                                  else "the voice tables the mixer relies on are inconsistent: ") + line[:300])
             model_compare(ck, mode, out, stats)
 
     # ---------------- bit-exact kernel tie (random voices, every kernel table entry) ----------------
@@ -407,6 +450,20 @@ def run(ck):
         if stats.get("reuse_modules_" + k, 0) == 0:
             ck.unproved("correspondence voice reuse coverage", "no voice slot changed owner with state of kind %r in the reuse modules" % k)
 
+    # ---------------- small voice tables: more background (NNA) voices than maxvoc - num_tracks, table not full ----------------
+    nna = gen_c14_synth.nna_modules(os.path.join(vlib.OUT, "c14-synth"), seed)
+    okt = gen_c14_synth.okt_modules(os.path.join(vlib.OUT, "c14-synth"), seed)
+    ck.note("nna_modules", [os.path.basename(f) for f in nna])
+    ck.note("okt_split_modules", [os.path.basename(f) for f in okt])
+    for voices in (7, 8):
+        tie_like("tie", 200 if quick else 500, nna + reuse[:2], "nna_tie", env={"C14_VOICES": str(voices), "C14_INTERP": "1"})
+    tie_like("tie", 120 if quick else 400, okt, "okt_tie")
+    for k in ("bg_beyond", "bg"):
+        if stats.get("nna_modules_" + k, 0) == 0:
+            ck.unproved("correspondence background-channel coverage",
+                        "the small-voice-table runs never had %s" % {"bg_beyond": "more background voices than maxvoc - num_tracks below the voice limit",
+                                                                      "bg": "a libxmp_virt_setpatch call that moved a voice to a background channel"}[k])
+
     # ---------------- regression configuration: lowest rate + Paula kernels ----------------
     allfiles = vlib.corpus_files()
     lmods = [f for f in allfiles if os.path.basename(f) in PAULA_WITNESSES]
@@ -418,7 +475,7 @@ def run(ck):
 
     # ---------------- twin contexts: player volume / pan tails ----------------
     nfr = 60 if quick else 200
-    tmods = modules(ck, 60 if quick else 100000, 500000 if quick else 8000000) + synth
+    tmods = modules(ck, 60 if quick else 100000, 500000 if quick else 8000000) + synth + okt
     for sh, (rc, out, err) in zip(*(lambda s: (s, vlib.pmap(run_shard, s)))(shards(exe, "twin", seed, nfr, tmods))):
         if rc != 0:
             abort_violation(ck, exe, sh, rc, err)
@@ -502,7 +559,9 @@ def run(ck):
         ck.count(("sep", line.split()[1], seed, d.get("rate"), d.get("interp")), nontrivial=d["applicable"] == "1" and int(d["L_ne_R_frames"]) > 0)
 
     omods = modules(ck, 120 if quick else 100000, 600000 if quick else 8000000)
-    oracle("silence", 120 if quick else 600, synth + omods, "silencestat", silence_stat)
+    strat = [f for f in stratified(ck, 600000 if quick else 8000000) if f not in omods]
+    ck.note("silence_format_classes", len(strat))
+    oracle("silence", 120 if quick else 600, synth + okt + nna + omods + strat, "silencestat", silence_stat)
     oracle("solosum", 90 if quick else 400, synth + (omods[:70] if quick else omods), "solosumstat", solosum_stat)
     oracle("sep", 100 if quick else 500, synth + (omods[:90] if quick else omods), "sepstat", sep_stat)
     # every pan source of process_pan (channel / sample / instrument pan, pan envelope, pitch-pan separation, random pan
@@ -511,6 +570,10 @@ def run(ck):
     oracle("sep", 140 if quick else 500, panmods, "sepstat", sep_stat)
     for mixv in (100, 37):
         oracle("sep", 140 if quick else 500, panmods, "sepstat", sep_stat, {"C14_MIX": str(mixv), "C14_POS": "0"})
+    # small voice tables (XMP_PLAYER_VOICES): many background voices on few busy channels, voice table never full
+    for voices in (7, 8, 10):
+        oracle("solosum", 260 if quick else 600, nna, "solosumstat", solosum_stat, {"C14_INTERP": "1", "C14_VOICES": str(voices)})
+    oracle("solosum", 120 if quick else 400, okt, "solosumstat", solosum_stat)
     # voice-slot reuse across channels: the new owner's audio must not depend on the previous owner being audible
     for interp, rate in ((1, 44100), (2, 22050), (1, 8000)):
         oracle("solosum", 220 if quick else 500, reuse, "solosumstat", solosum_stat, {"C14_INTERP": str(interp), "C14_RATE": str(rate)})
